@@ -198,6 +198,16 @@ def api_call(ctx, name):
     if name == "by_arm":
         cna = bins(ctx, 3)
         return [cna], lambda: [(c, sub.data) for c, sub in cna.by_arm()]
+    if name == "by_arm_split":
+        # small thresholds, so that a centromere-sized gap is looked for (and may be found) on 4 bins
+        cna = bins(ctx, 4)
+        return [cna], lambda: [(c, sub.data) for c, sub in cna.by_arm(min_gap_size=10, min_arm_bins=1)]
+    if name == "export_vcf_bins":
+        # the optional bin-level argument of export_vcf (confidence intervals of the breakpoints)
+        b = bins(ctx, 3)
+        seg = seg_of(ctx, b)
+        seg["cn"] = 4
+        return [seg, b], lambda: export.export_vcf(seg, 2, False, None, True, "S", b)[1]
     if name in ("merge", "flatten", "subtract", "intersection", "subdivide", "resize"):
         a = bins(ctx, 2)
         rows = []
@@ -365,6 +375,53 @@ def h_rng(ctx, api):
     ctx.cover("reached")
 
 
+def h_workers(ctx, method):
+    """do_segmentation with 1 worker and with N: the same table.  The process pool is replaced by an
+    in-process stand-in that honours its contract (ordered map, arguments handed over unchanged);
+    what is decided is what each worker is asked to do -- the same bins, the same options."""
+    from cnvlib import parallel
+
+    n = 3
+    cols = {"chromosome": ["chr1"] * n, "start": [0, 100, 200], "end": [100, 200, 300], "gene": ["A", "A", "B"], "log2": [ctx.real(f"l{i}", -4, 4) for i in range(n)], "depth": [10.0] * n, "weight": [ctx.real(f"w{i}", 0.01, 1) for i in range(n)]}
+    cna = make_cna(cols, {"sample_id": "S"})
+
+    class _Pool:
+        def __enter__(self):
+            return self
+
+        def __exit__(self, *a):
+            return False
+
+        def map(self, fn, it):
+            return [fn(x) for x in it]
+
+    import contextlib
+
+    @contextlib.contextmanager
+    def pick(nprocs):
+        yield (parallel.SerialPool() if nprocs == 1 else _Pool())
+
+    orig = parallel.pick_pool
+    parallel.pick_pool = pick
+    try:
+        one = segmentation.do_segmentation(cna, method, skip_low=False, skip_outliers=0, min_weight=0.3, processes=1)
+        many = segmentation.do_segmentation(cna, method, skip_low=False, skip_outliers=0, min_weight=0.3, processes=3)
+    except Exception as exc:
+        claim_raised(ctx, "do_segmentation", exc)
+        return
+    finally:
+        parallel.pick_pool = orig
+    ctx.observe("n", len(one))
+    ctx.claim(len(one) == len(many), "the same number of segments for 1 and N workers")
+    if len(one) != len(many):
+        return
+    for a, b in zip(one.data.itertuples(index=False), many.data.itertuples(index=False)):
+        ctx.claim(a.chromosome == b.chromosome and And(a.start == b.start, a.end == b.end, a.probes == b.probes), "the same segments for 1 and N workers")
+        ctx.claim(And(cell_eq(a.log2, b.log2), cell_eq(a.weight, b.weight)), "the same segment values for 1 and N workers (same options reach every worker)")
+    ctx.cover("a bin below min_weight", Or(*[w < 0.3 for w in cols["weight"]]))
+    ctx.cover("reached")
+
+
 # ---------------------------------------------------------------- ensure_path
 
 
@@ -424,11 +481,12 @@ def h_ensure_path(ctx, k):
 
 APIS = [
     "call:threshold:", "call:clonal:", "call:none:", "call:threshold:ci,cn", "call:threshold:cn", "call:clonal:ampdel", "segment", "segmetrics", "genemetrics", "breaks", "bintest",
-    "export_bed", "export_vcf", "center_all", "by_gene", "by_arm", "merge", "flatten", "subtract", "intersection", "subdivide", "resize", "target", "antitarget", "fix", "fix_unsorted",
+    "export_bed", "export_vcf", "center_all", "by_gene", "by_arm", "merge", "flatten", "subtract", "intersection", "subdivide", "resize", "target", "antitarget", "fix", "fix_unsorted", "by_arm_split", "export_vcf_bins",
 ]
 
 HARNESSES = [
     Harness("frame", h_frame, [{"api": a} for a in APIS], covers=["reached"], wall_s=300, thorough_wall_s=1500, keep_uf=True, nonce_fork=False),
     Harness("rng_independence", h_rng, [{"api": a} for a in ("center_by_window", "bootstrap", "bootstrap_smoothed", "shuffle")], covers=["reached"], wall_s=300),
+    Harness("workers", h_workers, [{"method": "none"}], covers=["reached", "a bin below min_weight"], wall_s=300),
     Harness("ensure_path", h_ensure_path, [{"k": 1}, {"k": 2}, {"k": 3}], covers=["gap in the suffixes", "nothing pre-existing"], wall_s=120),
 ]
